@@ -415,7 +415,7 @@ CELLS = {
     "opt_alt": {"fn": opt_alt, "bound": "3 single-micro-op instructions over the 7 one-cycle forms, the instruction at each position with a second alternative port assignment (dict port_uops); 1 or 2 passes", "budget": {"quick": 170, "thorough": 900}, "shards": 16},
     "opt_alt_full": {"fn": opt_alt_full, "tiers": ("thorough",), "bound": "same over all 14 forms (two-cycle forms included)", "budget": {"thorough": 1800}, "shards": 48},
     "shipped": {"fn": shipped, "bound": "16 shipped example/test kernels on zen1/zen2/tx2 x {uniform, one pass, two passes}: per-instruction feasibility against the micro-ops the analysis reports (memory-composed forms on models with multipliers: bounds with the smallest and largest multiplier; the exact scaling is C08's), totals = column sums",
-                "budget": {"quick": 170, "thorough": 300}, "shards": 4},
+                "budget": {"quick": 170, "thorough": 300}, "shards": 16},
     "opt_half": {"fn": opt_half, "bound": "two single-micro-op instructions with 0.5 or 1 cycle", "budget": {"quick": 120, "thorough": 300}},
 }
 
